@@ -20,6 +20,8 @@ import (
 	"time"
 
 	"github.com/pquerna/otp/totp"
+	"net/http/httptest"
+	"github.com/Cloud-Foundations/keymaster/keymasterd/eventnotifier"
 )
 
 type vConcWorld struct {
@@ -518,6 +520,57 @@ func runC16Race(t *testing.T, cases []map[string]interface{}, ev *vEvents) {
 		}
 		time.Sleep(80 * time.Millisecond) // abandoned reads finish
 		dw.Close()
+	}
+	// phase E: event subscribers come and go while events are being published
+	{
+		saved := eventNotifier
+		n := eventnotifier.New(logger)
+		eventNotifier = n
+		srv := httptest.NewServer(n)
+		addr := strings.TrimPrefix(srv.URL, "http://")
+		stop := make(chan struct{})
+		var pubs, subs syncWaitGroup
+		for k := 0; k < 4; k++ {
+			pubs.Add(1)
+			go func(k int) {
+				defer pubs.Done()
+				for i := 0; ; i++ {
+					select {
+					case <-stop:
+						return
+					default:
+					}
+					switch (i + k) % 3 {
+					case 0:
+						n.PublishWebLoginEvent(fmt.Sprintf("user%d", k))
+					case 1:
+						n.PublishSSH([]byte("ssh-blob"))
+					default:
+						n.PublishX509([]byte("x509-blob"))
+					}
+					if i%64 == 0 {
+						time.Sleep(time.Millisecond)
+					}
+				}
+			}(k)
+		}
+		for k := 0; k < 6; k++ {
+			subs.Add(1)
+			go func(k int) {
+				defer subs.Done()
+				for i := 0; i < 25; i++ {
+					sb := vSubscribe(addr, true)
+					time.Sleep(time.Duration(1+(i+k)%4) * time.Millisecond)
+					sb.conn.Close()
+				}
+			}(k)
+		}
+		subs.Wait()
+		total += 6 * 25
+		close(stop)
+		pubs.Wait()
+		srv.Close()
+		eventNotifier = saved
 	}
 	ev.Emit(map[string]interface{}{"i": 0, "ev": "Soak", "requests": total})
 }
